@@ -114,6 +114,16 @@ fn main() {
     install_panic_hook();
     let out = std::io::stdout();
     match args[1].as_str() {
+        "selftest-reference" => {
+            let n: u64 = arg(&args, "--count").unwrap_or("2000").parse().unwrap();
+            match psim::reference::selftest(n) {
+                Ok(k) => println!("reference model agrees with a boxed std::iter chain on {} generated scenarios", k),
+                Err(e) => {
+                    println!("HARNESS-ERROR: {}", e);
+                    std::process::exit(2);
+                }
+            }
+        }
         "gen" => {
             let prop = arg(&args, "--prop").expect("--prop");
             let seed: u64 = arg(&args, "--seed").expect("--seed").parse().unwrap();
